@@ -5,9 +5,9 @@ from sa.terms import mk, ZERO, ONE, TRUE, FALSE, show, walk, map_term, num
 from sa.prove import Prover
 from .common import engine, inventory, prove, analysis_or_fail
 
-LEVEL = 'necessary-conditions'
+LEVEL = 'other'
 MANIFEST = {
-    'category': 'lint',
+    'category': 'other',
     'engine': 'svn',
     'technique': ('symbolic value numbering of the straight-line parts of the speed controller: pushed braking-point terms and their '
                   'guard, must-pass-through of path extension -> braking-curve rebuild, controller wiring and force-clipping terms '
